@@ -32,8 +32,7 @@ def run(ctx):
     env = st.rocfl_env(os.path.join(ctx.tmp, "home"))
     quick = ctx.quick()
     plans, out, stats = footlib.run_all(ctx, env, n_worlds=12 if quick else 72, n_random=12 if quick else 36,
-                                        with_validity=False, fault_budget=4 if quick else 12,
-                                        known_worlds=2 if footlib.known_registered(ctx) else 0)
+                                        with_validity=False, fault_budget=4 if quick else 12)
     footlib.evaluate(ctx, "C03", out, stats)
     ctx.coverage["worlds"] = ["%s/%s" % (l, "ext-missing-parent" if m else ("ext" if e else "default")) for l, e, m in plans]
     ctx.level = "proof"
@@ -41,7 +40,7 @@ def run(ctx):
         "the staging root is the default one or a user-chosen directory (-s) unrelated to the storage root and disjoint from every object root (hypotheses cfg_ok / stg_separate); `-s <dir inside an object>` is outside the statement",
         "objects of the pre-state lie strictly inside the storage root, are not nested and have version directories named v<digits> (env_ok; kept by validate_object_root: C03_invariants_preserved)",
         "paths are resolved lexically (no symbolic links inside the roots); strace sees every mutating system call (rocfl uses no mmap / io_uring writes)",
-        "known finding excluded: an external mv whose named source lies under (or contains) the storage root or the staging root renames committed content away (classifier KnownC03.c03_mv_source_in_repo)",
+        "the named sources of an external mv: the refusal of sources inside the repository (fix 128b230) decides on fs::canonicalize of the source; the model takes the canonical paths as a second input (o_csrcs, realpath in the driver) and the theorems assume o_csrcs = o_srcs (no symbolic link in a named source); sources that reach the repository through symbolic links or `..` spellings are covered by the correspondence and the model-free oracle only",
         "S3 is out of scope",
     ]
     return common.finish_with_proof(
